@@ -5,7 +5,7 @@ namespace Teos.Drv
 open Teos.Client
 
 /-- towers and locators the harness uses are numbered below this bound -/
-def clUniverse : List Nat := List.range 6
+def clUniverse : List Nat := List.range 8
 
 def clFmtStatus : TStatus → String
   | .reachable => "r" | .tempUnreachable => "tu" | .unreachable => "u"
